@@ -1,0 +1,32 @@
+//go:build verif
+
+package process
+
+import (
+	"fmt"
+
+	"github.com/angelsolaorbaiceta/inkmath/mat"
+	"github.com/angelsolaorbaiceta/inkmath/vec"
+)
+
+// VerifAcceptSolution is a verification hook (build tag verif): it applies the acceptance test which
+// solve applies to the answer of the solver to a system of equations and an answer given by the caller.
+// It returns what the test panics with, or the empty string when the answer is accepted.
+func VerifAcceptSolution(
+	sysMatrix mat.ReadOnlyMatrix,
+	sysVector, solution vec.ReadOnlyVector,
+	maxError float64,
+) (refusal string) {
+	defer func() {
+		if r := recover(); r != nil {
+			refusal = fmt.Sprint(r)
+			if refusal == "" {
+				refusal = "panic"
+			}
+		}
+	}()
+
+	ensureSolutionIsGoodEnough(sysMatrix, sysVector, solution, maxError)
+
+	return ""
+}
